@@ -65,6 +65,19 @@ impl CloseManner {
     }
 }
 
+/// every certificate of the fixture PKI: what they contain is public
+pub const PUBLIC_CERTS: &[&str] = &[
+    "ca.crt", "other-ca.crt", "server.crt", "client.crt", "client-rsa.crt", "client-p521.crt", "client-secp256k1.crt", "client-rsa1024.crt", "client-ed448.crt", "client-ed25519.crt",
+];
+
+/// client keys of types / sizes a TLS backend may refuse to load (ECDSA P-521, secp256k1, RSA-1024,
+/// Ed448), a less common supported one (Ed25519) and a key whose DER is damaged
+pub const UNUSUAL_KEYS: &[(&str, &str)] = &[
+    ("client-p521.key", "client-p521.crt"), ("client-p521.sec1.key", "client-p521.crt"), ("client-secp256k1.key", "client-secp256k1.crt"),
+    ("client-rsa1024.key", "client-rsa1024.crt"), ("client-ed448.key", "client-ed448.crt"), ("client-ed25519.key", "client-ed25519.crt"),
+    ("client-rsa-damaged.key", "client-rsa.crt"),
+];
+
 pub fn fixtures() -> PathBuf {
     let root = std::env::var("VH_ROOT").unwrap_or_else(|_| "/verif".into());
     PathBuf::from(root).join("fixtures")
